@@ -23,7 +23,21 @@ if grep -q INTERNALERROR /tmp/seed_$ID.tests.log; then
   /venv/bin/python -m pytest -q -p no:cacheprovider -n 3 --timeout=900 test/ -x --deselect test/examples/test_spectral_mixture_gp_regression.py \
      --deselect test/kernels/test_spectral_mixture_kernel.py --deselect test/variational/test_natural_variational_distribution.py::TestNatVariational::test_optimization_optimal_error -k "not test_pickle" > /tmp/seed_$ID.tests.log 2>&1; TST=$?
 fi
-SUMMARY=$(tail -1 /tmp/seed_$ID.tests.log)
+if [ "$TST" != 0 ]; then
+  # a failure may be one of the suite's randomised tests: re-run exactly the failed tests twice; only a test that fails
+  # again counts (the summary then says so)
+  FAILED=$(grep '^FAILED ' /tmp/seed_$ID.tests.log | awk '{print $2}' | sort -u)
+  if [ -n "$FAILED" ]; then
+    A=0
+    for k in 1 2; do /venv/bin/python -m pytest -q -p no:cacheprovider --timeout=900 $FAILED > /tmp/seed_$ID.retest.log 2>&1 || A=1; done
+    if [ "$A" = 0 ]; then
+      /venv/bin/python -m pytest -q -p no:cacheprovider -n 6 --timeout=900 test/ --deselect test/examples/test_spectral_mixture_gp_regression.py \
+        --deselect test/kernels/test_spectral_mixture_kernel.py -k "not test_pickle" $(for f in $FAILED; do printf -- '--deselect %s ' "$f"; done) > /tmp/seed_$ID.tests.log 2>&1; TST=$?
+      echo "(flaky, passed twice on re-run and deselected: $FAILED)" >> /tmp/seed_$ID.tests.log
+    fi
+  fi
+fi
+SUMMARY=$(grep -E "passed|failed" /tmp/seed_$ID.tests.log | tail -1)
 cd /; git -C /repo worktree remove --force "$WT"
 echo "$ID: demo_pristine_exit=$PRE demo_mutated_exit=$POST tests_exit=$TST [$SUMMARY]"
 if [ "$PRE" = 0 ] && [ "$POST" != 0 ] && [ "$TST" = 0 ]; then
